@@ -491,7 +491,7 @@ static void MACRO_OutProcessor(void) {
         as_dynstr_t s;
 
         as_dynstr_ini_clone(&s, &OneLine);
-        KillCtrl(s.p_str);
+        KillCtrlDyn(&s);
 
         /* compress into tokens */
 
@@ -1275,7 +1275,7 @@ static void IRP_OutProcessor(void) {
         as_dynstr_t s;
 
         as_dynstr_ini_clone(&s, &OneLine);
-        KillCtrl(s.p_str);
+        KillCtrlDyn(&s);
         StringRecPtr l = FirstOutputTag->ParamNames;
         int          ParIter
                 = FirstOutputTag->Tag->ParIter == 0 ? 1 : FirstOutputTag->Tag->ParIter;
